@@ -721,9 +721,10 @@ func (p *parser) unary() (ast.Node, error) {
 
 	var res ast.Node
 
-	// special case for max negative long
+	// special case for max negative long: a '-' directly before an integer belongs to the
+	// literal, unless the integer is the receiver of an access (-1.foo is -(1.foo))
 	tok := p.peek()
-	if len(ops) > 0 && ops[len(ops)-1] && tok.isInt() {
+	if len(ops) > 0 && ops[len(ops)-1] && tok.isInt() && !p.accessFollows() {
 		p.advance()
 		i, err := strconv.ParseInt("-"+tok.Text, 10, 64)
 		if err != nil {
@@ -747,6 +748,15 @@ func (p *parser) unary() (ast.Node, error) {
 		}
 	}
 	return res, nil
+}
+
+// accessFollows reports whether the token after the current one starts an access.
+func (p *parser) accessFollows() bool {
+	if p.pos+1 >= len(p.tokens) {
+		return false
+	}
+	next := p.tokens[p.pos+1].Text
+	return next == "." || next == "["
 }
 
 func (p *parser) member() (ast.Node, error) {
